@@ -17,7 +17,7 @@ RULE = (
     "(marker positions/velocities are machine state; 7 or 33 markers) or real RigidBodyFlowInteraction objects (2-D circular "
     "cylinder with 33 points, sphere with 18). Rules: evaluate_interaction(body) = __call__, evaluate_body_forces(body) = "
     "compute_flow_forces_and_torques, time_step(body, dt) with dt over 5 decades, move_body (new marker set / new pose and "
-    "velocities), change_flow(field), flow_consumes_forcing (zeroes the shared field as a flow step does). Model (oracle): per body "
+    "velocities), nudge_body (displacement of 1e-9..1e-3 cells), change_flow(field), flow_consumes_forcing (zeroes the shared field as a flow step does). Model (oracle): per body "
     "integral I, last mismatch V, time t; evaluate: V = interp_ref(u, X) - Xdot, F = k s I + c s V, s = (max marker spacing)^(dim-1), "
     "E = (reset ? 0 : E) + spread_ref(F); time_step: I += dt V, t += dt; interp_ref/spread_ref are an independent float64 "
     "cosine-delta implementation. After EVERY rule: marker force, position- and velocity-mismatch fields, time and the shared "
@@ -109,6 +109,8 @@ def _rules(tier):
         "move_body": ({"b": b, "fracs": st.lists(frac, min_size=40, max_size=40),
                        "vel": st.lists(gen.floats(-2.0, 2.0, 32), min_size=9, max_size=9),
                        "pose": bodies.pose_spec(planar=False)}, None),
+        # a body that barely moves between two evaluations (slow bodies, small time steps): displacement 1e-9..1e-3 cells
+        "nudge_body": ({"b": b, "exp": st.integers(-9, -3), "dirs": st.lists(gen.floats(-1.0, 1.0, 32), min_size=9, max_size=9)}, None),
         # one feedback cycle as the simulation loops run it: evaluate, step the forcing, move the body, evaluate again
         "feedback_cycle": ({"b": b, "dt": gen.log_uniform(1e-5, 1.0), "fracs": st.lists(frac, min_size=40, max_size=40),
                             "vel": st.lists(gen.floats(-2.0, 2.0, 32), min_size=9, max_size=9),
@@ -148,7 +150,8 @@ def _step(s, op, ctx):
         s["E"] = np.zeros((dim, *shape), dtype=real_t)
         s["E_model"] = np.zeros((dim, *shape))
         s["S_E"] = 0.0
-        s["flags"] = {"eval_step_eval": False, "eval_step_eval_moved": False, "repeat_eval": False, "two_into_shared": False}
+        s["flags"] = {"eval_step_eval": False, "eval_step_eval_moved": False, "repeat_eval": False, "two_into_shared": False,
+                      "nudged": False}
         s["pending_since_consume"] = set()
         Hcls = _harness_grid_cls()
         dx = real_t(DX)
@@ -273,6 +276,22 @@ def _step(s, op, ctx):
         else:
             _set_pose(bd, op["pose"], dim)
         bd["hist"].append("move")
+        _check_all(s, f"after {kind}", skip_body_snapshots={bi})
+        return
+    elif kind == "nudge_body":
+        delta = 10.0 ** int(op["exp"]) * DX
+        if bd.get("src"):
+            n = bd["n"]
+            shift = np.array([[op["dirs"][(c * 3 + m) % 9] for m in range(n)] for c in range(dim)]) * delta
+            newpos = bd["src"]["pos"] + shift
+            for c in range(dim):
+                nc = s["shape"][dim - 1 - c]
+                newpos[c] = np.clip(newpos[c], 2.0 * DX, (nc - 2.0) * DX)
+            bd["src"]["pos"][...] = newpos
+        else:
+            bd["body"].position_collection[:dim, 0] += np.array(op["dirs"][:dim]) * delta
+        bd["hist"].append("move")
+        s["flags"]["nudged"] = True
         _check_all(s, f"after {kind}", skip_body_snapshots={bi})
         return
     elif kind == "change_flow":
